@@ -129,9 +129,10 @@ def run_case(case):
             cands = physics_point(fam, proc, p["x"], p["Q2"], m2s or list(m2all.values()))
             xi = min(cands, key=lambda c: abs(c - code_xi))
             compared += 1
-            if abs(xi - code_xi) > 1e-13 * xi:
+            # 1e-10: the code's own expression for eta loses ~3e-13 to cancellation when m2 >> Q2; a wrong formula is off by O(m2/Q2)
+            if abs(xi - code_xi) > 1e-10 * xi:
                 viol.append(dict(sig=f"convolution-point|{fam}|{proc}", what=f"{name}: {type(k.coeff).__name__} ({fam}/{proc}) convolved at {code_xi!r}; physics gives {cands} for x={p['x']}, Q2={p['Q2']}"))
-                continue
+            xi = code_xi
             partons = np.array([k.partons.get(pid, 0.0) for pid in cards.PIDS])
             if xi >= 1.0 - 1e-9:
                 continue
